@@ -16,7 +16,7 @@ import (
 func init() { register("C11", true, checkC11) }
 
 func checkC11(p *Prog, r *Report) {
-	r.Explain("OWN: the buffered reader of isobmff.Reader is touched only by Reader.peek, Reader.discard, box.Read and the constructor/Close; Reader.peek/discard are called only from the box methods that check the box (box.Peek, box.Discard) and from readBox; box.remain is stored only by the box methods and the three places that create a box — so no consumption can bypass the accounting. GUARD: box.Peek and box.Discard delegate (to the parent or the reader) only under remain >= n, through the parent when there is one; box.Read truncates its request to the minimum of remain over the whole parent chain. ACCT: box.Read charges exactly the count the underlying Read returned, to the box, its parents and Reader.offset; Reader.discard adds the returned count to Reader.offset. CLOSE: every iteration of a child-box loop closes the child before the next one is read, and ReadMetadata closes (or hands to a closing handler) the top-level box on every path that can return a nil error — so the reader stands at the next box. CMT: the CR3 dispatch passes IFD0, ExifIFD, MakerNote, GPSIFD for CMT1..CMT4 (spec table). HANDOFF: the reader given to the Exif, XMP and preview callbacks is the box itself (whose Read is bounded by GUARD), never the raw buffered reader. Exact byte positions after arbitrary box trees are run-time sums and are not decided.")
+	r.Explain("OWN: the buffered reader of isobmff.Reader is touched only by Reader.peek, Reader.discard, box.Read and the constructor/Close; Reader.peek/discard are called only from the box methods that check the box (box.Peek, box.Discard) and from readBox; box.remain is stored only by the box methods and the three places that create a box — so no consumption can bypass the accounting. GUARD: box.Peek and box.Discard delegate (to the parent or the reader) only under remain >= n, through the parent when there is one; box.Read truncates its request to the minimum of remain over the whole parent chain. ACCT: box.Read charges exactly the count the underlying Read returned, to the box, its parents and Reader.offset; Reader.discard adds the returned count to Reader.offset. FRAME: every store to box.size (the 32-bit field or the 64-bit largesize) is followed on every continuing path by remain = int(that size) on the same box before the box is used or returned. CLOSE: every iteration of a child-box loop closes the child before the next one is read, and ReadMetadata closes (or hands to a closing handler) the top-level box on every path that can return a nil error — so the reader stands at the next box. CMT: the CR3 dispatch passes IFD0, ExifIFD, MakerNote, GPSIFD for CMT1..CMT4 (spec table). HANDOFF: the reader given to the Exif, XMP and preview callbacks is the box itself (whose Read is bounded by GUARD), never the raw buffered reader. Exact byte positions after arbitrary box trees are run-time sums and are not decided.")
 	r.Trusted("bufio.Reader Peek/Discard/Read semantics", "CR3 layout: CMT1 root, CMT2 Exif, CMT3 maker note, CMT4 GPS (lclevy/canon_cr3)")
 	sp := p.SSAPkg("isobmff")
 	if sp == nil {
@@ -28,6 +28,8 @@ func checkC11(p *Prog, r *Report) {
 	ruleCloseBoxes(p, r, sp)
 	ruleCMT(p, r)
 	ruleHandoff(p, r, sp)
+	ruleFrame(p, r, sp)
+	r.Floor("FRAME", 3)
 	r.Floor("OWN", 6)
 	r.Floor("GUARD", 3)
 	r.Floor("ACCT", 2)
@@ -132,10 +134,12 @@ func ruleOwn(p *Prog, r *Report, sp *ssa.Package) {
 					if n := namedOfPtr(fa.X.Type()); n != nil && n.Obj().Name() == "box" && fieldName(fa.X.Type(), fa.Field) == "remain" {
 						nRem++
 						key := fmt.Sprintf("%s | store box.remain", fn)
-						if _, fresh := fa.X.(*ssa.Alloc); fresh {
+						if al, fresh := fa.X.(*ssa.Alloc); fresh && !receivedWhole(al) {
 							r.OK("OWN", key, at, "initialises a box that is being created in this function")
 						} else if remainWriters[fn] {
 							r.OK("OWN", key, at, "box method or box creation")
+						} else if creationHelper(p, f, fa.X) {
+							r.OK("OWN", key, at, "helper called only on boxes that its callers are creating (fresh locals); FRAME ties the value to the size")
 						} else {
 							r.Bad("OWN", key, at, "box.remain is written outside the box methods: the containment bookkeeping can be altered without consuming")
 						}
@@ -147,6 +151,60 @@ func ruleOwn(p *Prog, r *Report, sp *ssa.Package) {
 	r.Extra("own_br_uses", nBr)
 	r.Extra("own_peek_discard_calls", nPD)
 	r.Extra("own_remain_stores", nRem)
+}
+
+// creationHelper: the box written is a parameter of f and every caller passes the address of a local box it is
+// creating (never one it obtained elsewhere).
+func creationHelper(p *Prog, f *ssa.Function, boxPtr ssa.Value) bool {
+	prm, ok := boxPtr.(*ssa.Parameter)
+	if !ok {
+		return false
+	}
+	idx := -1
+	for i, q := range f.Params {
+		if q == prm {
+			idx = i
+		}
+	}
+	callers := p.Callers(f)
+	if idx < 0 || len(callers) == 0 {
+		return false
+	}
+	for _, cs := range callers {
+		args := callArgs(cs.Common())
+		if idx >= len(args) {
+			return false
+		}
+		al, ok := args[idx].(*ssa.Alloc)
+		if !ok || receivedWhole(al) {
+			return false
+		}
+	}
+	return true
+}
+
+// receivedWhole: the local was (also) assigned a whole box obtained elsewhere (b := readInnerBox(...), inner = *p):
+// a later store into one of its fields modifies an existing box, it does not create one.
+func receivedWhole(al *ssa.Alloc) bool {
+	for _, rf := range refs(al) {
+		st, ok := rf.(*ssa.Store)
+		if !ok || st.Addr != ssa.Value(al) {
+			continue
+		}
+		switch v := st.Val.(type) {
+		case *ssa.Const:
+			// zero value
+		case *ssa.UnOp:
+			// `return inner, nil` with named results re-assigns the result variable to itself
+			if v.Op == token.MUL && v.X == ssa.Value(al) {
+				continue
+			}
+			return true
+		case *ssa.Call, *ssa.Extract, *ssa.Phi, *ssa.Parameter:
+			return true
+		}
+	}
+	return false
 }
 
 // ---- GUARD / ACCT ----------------------------------------------------------------------------------
